@@ -1189,6 +1189,66 @@ def rule_py_fraction_padded(out):
         out.undecided(rid, "anchor/fraction", rel, "no rendered sub-second remainder found")
 
 
+_PY_VARINT_ALLOWED = {
+    "Gt": {0x7F}, "GtE": {0x80}, "Lt": {0x80}, "LtE": {0x7F}, "Eq": {0}, "NotEq": {0},
+    "BitOr": {0x80}, "BitAnd": {0x7F, 0x80, 1}, "RShift": {7, 1, 63}, "LShift": {1, 7}, "Add": {7}, "Sub": {1},
+}
+
+
+def rule_py_varint_constants(out):
+    rid = "VC1"
+    out.rule(rid, "_binary.py: every integer literal the varint / zig-zag routines of the coded streams combine with a value (a local or the result of another operation) is the one "
+                  "the encoding defines — 7-bit groups (0x7F, shift 7), continuation bit 0x80, zig-zag by one bit with the sign taken from bit 63", 10)
+    tree, rel = parse_py(out, "_binary.py")
+    n = 0
+    counts = {}
+
+    def value_like(node):
+        # an expression over locals only; buffer bookkeeping reads attributes of self / calls len()
+        if not (isinstance(node, (ast.Name, ast.BinOp, ast.UnaryOp)) or (isinstance(node, ast.Call) and isinstance(node.func, ast.Name) and node.func.id == "int")):
+            return False
+        for x in ast.walk(node):
+            if isinstance(x, ast.Attribute) or (isinstance(x, ast.Call) and not (isinstance(x.func, ast.Name) and x.func.id == "int")):
+                return False
+        return True
+
+    def const(node):
+        if isinstance(node, ast.Constant) and isinstance(node.value, int) and not isinstance(node.value, bool):
+            return node.value
+        return None
+
+    for fn in ast.walk(tree):
+        if not isinstance(fn, ast.FunctionDef) or not re.search(r"varint|zigzag", fn.name):
+            continue
+        for node in ast.walk(fn):
+            triples = []
+            if isinstance(node, ast.BinOp):
+                triples.append((type(node.op).__name__, node.left, node.right))
+            elif isinstance(node, ast.AugAssign) and isinstance(node.target, ast.Name):
+                triples.append((type(node.op).__name__, node.target, node.value))
+            elif isinstance(node, ast.Compare) and len(node.ops) == 1:
+                triples.append((type(node.ops[0]).__name__, node.left, node.comparators[0]))
+            for op, a, b in triples:
+                if op not in _PY_VARINT_ALLOWED:
+                    continue
+                ca, cb = const(a), const(b)
+                if (ca is None) == (cb is None):
+                    continue
+                other = b if ca is not None else a
+                if not value_like(other):
+                    continue  # buffer bookkeeping (`len(buf) - offset < 10`, `self._offset += 1`)
+                v = ca if ca is not None else cb
+                n += 1
+                k = "%s/%s %s" % (fn.name, op, hex(v) if v > 9 else v)
+                counts[k] = counts.get(k, 0) + 1
+                key = k if counts[k] == 1 else "%s#%d" % (k, counts[k])
+                out.check(v in _PY_VARINT_ALLOWED[op], rid, key, pos(rel, node), "a constant of the encoding",
+                          "`%s %s` in %s: the varint encoding works in groups of 7 bits with 0x80 as the continuation bit (zig-zag: one bit, sign from bit 63) — with this "
+                          "constant every value that needs more than one byte is written or read as a different number" % (op, hex(v) if v > 9 else v, fn.name))
+    if n == 0:
+        out.undecided(rid, "anchor/varint routines", rel, "no literal found in the varint routines")
+
+
 def _outcomes(stmts):
     """how a statement list can end: subset of {'raise', 'return', 'fall', 'jump'}"""
     out = set()
@@ -1755,13 +1815,13 @@ def rule_py_refill_scope(out):
 RULES = {
     "C07": [rule_py_mixins_have_no_public_methods],
     "C02": [rule_json_kinds, rule_ndjson_sentinel, rule_union_dispatch, rule_py_optional_identity, rule_py_fraction_padded],
-    "C03": [rule_link, rule_py_wire_table, rule_py_capacity, rule_py_no_alias, rule_py_stream_blocks, rule_py_optional_identity, rule_ndjson_sentinel, rule_py_fraction_padded],
+    "C03": [rule_link, rule_py_wire_table, rule_py_capacity, rule_py_no_alias, rule_py_stream_blocks, rule_py_optional_identity, rule_ndjson_sentinel, rule_py_fraction_padded, rule_py_varint_constants],
     "C08": [rule_link],
     "C15": [rule_py_headers, rule_ndjson_key_order],
     "C16": [rule_py_eof, rule_py_refill_scope, rule_py_no_swallowed_eof],
     "C17": [rule_py_stream_blocks, rule_py_no_alias],
     "C04": [rule_py_headers, rule_py_write_order, rule_ndjson_key_order],
-    "C01": [rule_py_wire_table, rule_py_stream_blocks, rule_py_write_order, rule_py_no_alias],
+    "C01": [rule_py_wire_table, rule_py_stream_blocks, rule_py_write_order, rule_py_no_alias, rule_py_varint_constants],
 }
 
 
